@@ -369,10 +369,41 @@ struct Expect {
     /// the tamper under test re-installs an authentic earlier document of the key:
     /// head / listings (which return no bytes) may then report that earlier commit
     allow_earlier_commit: bool,
+    /// compatibility mode only: keys whose (tampered) metadata document decodes to a document
+    /// with none of an / at / av / g - the documented downgrade window ("fully stripped
+    /// documents are indistinguishable from genuine legacy metadata", builder docs of
+    /// `with_strict_metadata_auth`). head / listings of such a key report unauthenticated
+    /// fields by design; payload reads are still held to "written bytes or error".
+    legacy_window: std::collections::BTreeSet<u8>,
+}
+
+/// Mirror of the store's metadata document for the four fields whose absence makes a
+/// document "legacy"; decoded with the same library and the same leniency (unknown keys
+/// ignored, trailing bytes ignored, null == absent).
+#[derive(Deserialize)]
+struct AuthFields {
+    #[serde(rename = "av", default)]
+    av: Option<serde::de::IgnoredAny>,
+    #[serde(rename = "an", default)]
+    an: Option<serde::de::IgnoredAny>,
+    #[serde(rename = "at", default)]
+    at: Option<serde::de::IgnoredAny>,
+    #[serde(rename = "g", default)]
+    g: Option<serde::de::IgnoredAny>,
+}
+
+fn decodes_as_legacy(doc: &[u8]) -> bool {
+    match cbor2::from_reader::<AuthFields, _>(doc) {
+        Ok(a) => a.av.is_none() && a.an.is_none() && a.at.is_none() && a.g.is_none(),
+        Err(_) => false,
+    }
 }
 
 impl Expect {
     fn meta_ok(&self, key: u8, size: u64, tag: &Option<String>) -> bool {
+        if self.legacy_window.contains(&key) {
+            return true;
+        }
         let cur = self.bytes.get(&key).map(|w| w.len() as u64 == size && self.tags.get(&key).unwrap_or(&None) == tag).unwrap_or(false);
         cur || (self.allow_earlier_commit && self.history.get(&key).map(|h| h.contains(&(size, tag.clone()))).unwrap_or(false))
     }
@@ -527,10 +558,11 @@ async fn check_listings(store: &dyn ObjectStore, exp: &Expect, what: &str, detec
 
 pub fn run_case(case: &Case, ctx: &mut CaseCtx) -> Result<(), String> {
     install_clock(1_700_000_000_000);
+    install_rand(case);
     vf_core::block_on(async {
         let mem = Arc::new(InMemory::new());
         let store = enc(case.strict, case.chunk, mem.clone());
-        let mut exp = Expect { bytes: BTreeMap::new(), tags: BTreeMap::new(), history: BTreeMap::new(), allow_earlier_commit: false };
+        let mut exp = Expect { bytes: BTreeMap::new(), tags: BTreeMap::new(), history: BTreeMap::new(), allow_earlier_commit: false, legacy_window: Default::default() };
         let mut plaintexts: Vec<Vec<u8>> = vec![];
         let mut nonce_use: HashMap<Vec<u8>, (u64, Vec<u8>)> = HashMap::new(); // nonce -> (fingerprint of (aad id, ciphertext), sample)
         let mut older: BTreeMap<String, Vec<Vec<u8>>> = BTreeMap::new();
@@ -703,6 +735,17 @@ pub fn run_case(case: &Case, ctx: &mut CaseCtx) -> Result<(), String> {
             }
             exp.allow_earlier_commit = matches!(t, Tamper::OlderMeta { .. });
             let ts = t.apply(&snap);
+            exp.legacy_window.clear();
+            if !case.strict {
+                for k in 0..NKEYS {
+                    if let Some(doc) = ts.get(&format!("meta/{}", KEYS[k as usize])) {
+                        if decodes_as_legacy(doc) {
+                            exp.legacy_window.insert(k);
+                            ctx.count("compat_legacy_window_documents", 1);
+                        }
+                    }
+                }
+            }
             let m2 = restore(&ts).await;
             let s2 = enc(case.strict, case.chunk, m2.clone());
             let what = t.describe();
